@@ -117,6 +117,19 @@ async fn run(us: &[Upd], rng: &mut Rng, use_wal_api: bool, label: &str) -> Optio
             if served != says { return Some(Found { input: format!("{}: {}", label, describe(us)), observed: format!("after recovery GET {} = {:?}", k, served), required: format!("what the recovered replication state says: {:?}", says) }); }
         }
     }
+    // a write accepted after recovery supersedes everything that was recovered (its stamp is above every persisted stamp of the key):
+    // merging the old persisted state back in (a peer, a second recovery) must not undo it
+    for (k, old) in &want {
+        if old.is_hash() { continue; }
+        let reply = node.execute(Command::set(k.clone(), SDS::from_str("after-recovery"))).await;
+        let now = node.snapshot_state().await;
+        let cur = match now.get(k) { Some(v) => v.clone(), None => return Some(Found { input: format!("{}: {}; after recovery SET {} after-recovery -> {:?}", label, describe(us), k, reply), observed: "the key is not in the replication state".into(), required: "the new write is recorded".into() }) };
+        let back = cur.merge(old);
+        let val = |v: &ReplicatedValue| v.get().map(|s| String::from_utf8_lossy(s.as_bytes()).to_string());
+        if val(&back) != Some("after-recovery".to_string()) || !(cur.timestamp > old.timestamp) {
+            return Some(Found { input: format!("{}: {}; after recovery the node accepts SET {} after-recovery", label, describe(us), k), observed: format!("the write is stamped ({},r{}); merging the persisted state of the key (stamp ({},r{}), value {:?}) back in gives {:?}", cur.timestamp.time, cur.timestamp.replica_id.0, old.timestamp.time, old.timestamp.replica_id.0, val(old), val(&back)), required: "a write accepted after recovery is stamped above every recovered stamp and survives a merge with the recovered state".into() });
+        }
+    }
     None
 }
 
@@ -137,6 +150,7 @@ pub fn search(_pid: &str, oid: &str, seed: u64) -> Option<Found> {
             ("checkpoint holds a hash field at (10,r1), the WAL holds another field stamped (7,r2)", vec![upd("h1", 10, 1, true, false, false, false), upd("h1", 7, 2, false, false, false, true)]),
             ("checkpoint + covered segment + newer segment + WAL, stamps interleaved", vec![upd("s1", 20, 1, true, true, false, false), upd("s1", 4, 2, false, false, true, false), upd("s2", 3, 3, false, false, false, true), upd("h2", 15, 2, true, false, false, true), upd("h2", 6, 3, false, false, true, true), upd("h2", 30, 1, false, false, false, true)]),
             ("a newer value only in the WAL, an older one in the checkpoint", vec![upd("s1", 5, 1, true, true, false, false), upd("s1", 50, 2, false, false, false, true), upd("s3", 10, 1, true, false, true, false)]),
+            ("the checkpoint holds a tombstone as the newest stamp of its key", vec![upd("s1", 5, 1, true, true, false, false), upd("s1", 8, 2, true, true, false, false), upd("s2", 3, 1, true, false, false, false)]),
             ("tombstone in the WAL for a key of the checkpoint", vec![upd("s1", 6, 1, true, true, false, false), upd("s1", 14, 1, false, false, false, true), upd("s1", 9, 2, false, false, true, false)]),
         ];
         for (name, us) in &fams { for api in [true, false] { for _ in 0..3 { if let Some(f) = run(us, &mut rng, api, name).await { return Some(f); } } } }
